@@ -428,6 +428,14 @@ def mutators(chk, prog, rule='R5'):
                               '' if ok else 'size %r, expected %r; path [%s]' % (size, size_want, '; '.join(s.trail[-5:])))
                 if not isinstance(size, Lin):
                     continue
+                if size_want is None and f.params:
+                    # a position at or beyond the size makes the bitset grow: afterwards it covers the position
+                    # and is never smaller than before
+                    pos = Lin.sym(f.params[0]['name'])
+                    ok = entails(s.cons, ge(size, pos + 1)) and entails(s.cons, ge(size, n))
+                    chk.check(ok, rule, f.name, 'the bitset covers the addressed position afterwards (grows if '
+                              'necessary) [%s]' % tag, f.loc(), '' if ok else 'size %r, position %r; path [%s]' % (
+                                  size, pos, '; '.join(s.trail[-5:])))
                 p = eng.fresh('p', s, 'unsigned long')
                 s2 = s.copy()
                 s2.assume(ge(p, 0), lt(p, size))
